@@ -32,6 +32,7 @@ type Env struct {
 	argVals  map[string]ssa.Value // at a call site: contract parameter name -> actual argument
 	nowSt    *State               // inside old(...): the current state (for now(...))
 	inTrigger bool                // translating an explicit trigger: plain heap reads only
+	derefConst map[string]TV      // at a closure call: constant content of captured single-assignment variables
 }
 
 func (vc *VC) newEnv(st, old *State) *Env {
@@ -911,6 +912,11 @@ func (vc *VC) trCall(x *ECall, env *Env) TV {
 			return vc.errTV("ifaceloc of %s", a.T)
 		}
 		return TV{T: types.Typ[types.UnsafePointer], S: sx("iptr", a.S)}
+	case "waitedfor":
+		// waitedfor(ch): this activation has completed a blocking receive from ch
+		a := vc.tr(x.Args[0], env)
+		vc.heapKeySort("#waited", B)
+		return TV{T: B, S: vc.envHeapRead(env, "#waited", B, a.S)}
 	case "sentat", "sentcount", "recvcount":
 		// sentat(ch, k): the k-th message ever sent on the tracked channel ch; sentcount(ch) / recvcount(ch):
 		// number of sends / receives so far
@@ -987,6 +993,11 @@ func (vc *VC) trCall(x *ECall, env *Env) TV {
 		vc.closureSpecsUsed[funcRelName(cfn)] = true
 		return vc.tr(body, cenv)
 	case "deref":
+		if id, ok := x.Args[0].(*EIdent); ok && env.derefConst != nil {
+			if tv, ok := env.derefConst[id.Name]; ok {
+				return tv
+			}
+		}
 		a := vc.tr(x.Args[0], env)
 		pt, ok := a.T.Underlying().(*types.Pointer)
 		if !ok {
